@@ -9,6 +9,7 @@ import glob as globmod
 
 from .rustsrc import Source, Undecided, mask, strip_comments, match_close, first_body_brace, param_names, brace_depths
 from . import rewrite
+from . import inline
 
 VERIF = os.path.dirname(os.path.dirname(os.path.abspath(__file__)))
 REPO = os.environ.get("VX_REPO", "/repo")
@@ -49,6 +50,7 @@ class Generated:
         self.notwin = set()
         self.leaves = {}         # "<fn>/<let>" -> dict(expr, free, src, fn): float leaves lifted by R14
         self.padded = []         # (fn name, contract params, real params, fnpath): R16-pad
+        self.inlined = []        # R19: "<helper> (defined at line n) into <fn>"
 
     def add(self, text, kind, info=None):
         for ln in text.split("\n"):
@@ -98,6 +100,8 @@ def build(unit, workdir):
 
     included = set()
     pending_notwin = [False]
+    # what the unit knows by name: its template and its configuration (R19 inlines only helpers that occur in neither)
+    known_text = _read(os.path.join(unit["dir"], "template.rs")) + "\n" + _read(os.path.join(unit["dir"], "unit.py"))
 
     def process(text, origin):
         for ln in text.split("\n"):
@@ -148,6 +152,12 @@ def build(unit, workdir):
                 S = src(key)
                 f = S.find_fn(cfg.get("src", fnpath))
                 body = strip_comments(f["body"])
+                if not cfg.get("no_inline") and not unit.get("no_inline"):
+                    ilog = {}
+                    body = inline.inline_helpers(S, cfg.get("src", fnpath), body, known_text, ilog)
+                    g.inlined += ilog.pop("_inlined", [])
+                    for k, v in ilog.items():
+                        g.rules_applied[k] = g.rules_applied.get(k, 0) + v
                 if cfg.get("fragment"):
                     # fragment extraction by anchor: from the match of the first pattern through the end of the block opened by the second
                     from .rustsrc import mask as _mask
